@@ -108,7 +108,7 @@ theorem stdN_delete {c : DNode} (h : stdN c = true) (ho : ownOp c = some .delete
   cases c <;> simp only [stdN, ho] at h <;> simpa [DNode.metas] using h
 
 theorem ownOp_of_effOp {inh : Option Op} {c : DNode} {op : Op} (hinh : inh = none ∨ inh = some .none)
-    (h : effOp inh c = some op) (hne : op ≠ .none) : ownOp c = some op := by
+    (h : effOp c inh = some op) (hne : op ≠ .none) : ownOp c = some op := by
   unfold effOp at h
   cases ho : ownOp c with
   | some o => simpa [ho] using h
@@ -128,7 +128,7 @@ theorem changeOp_changeOp_std {t : DNode} {b : Bytes} (h : t.metas = [("operatio
   simp [changeOp, h, eraseMeta, setMetas_setMetas]
 
 theorem invol_create {S : Schema} {inh : Option Op} {e : Option DNode} {c : DNode} (hinh : inh = none ∨ inh = some .none)
-    (hex : exactE S inh e c = true) (hstd : stdN c = true) (hop : effOp inh c = some .create) :
+    (hex : exactE S inh e c = true) (hstd : stdN c = true) (hop : effOp c inh = some .create) :
     ∃ c', revNode S inh (revDup c) = .ok c' ∧ revNode S inh (revDup c') = .ok (revDup c) := by
   obtain ⟨hd, hm, hk⟩ := exactE_base hex
   obtain ⟨_, hpl, _⟩ := exactE_create hex hop
@@ -141,7 +141,7 @@ theorem invol_create {S : Schema} {inh : Option Op} {e : Option DNode} {c : DNod
     rw [this, setKids_kids]
   refine ⟨_, hrev, ?_⟩
   rw [revDup_changeOp, revDup_idem]
-  have hop2 : effOp inh (changeOp (revDup c) .delete) = some .delete := effOp_changeOp (metaOK_revDup hm) .delete
+  have hop2 : effOp (changeOp (revDup c) .delete) inh = some .delete := effOp_changeOp (metaOK_revDup hm) .delete
   rw [revNode_delete (by simpa using hk) hop2, kids_changeOp, kids_revDup,
     map_removeOp_plain _ (by rw [plainL_revDupL]; exact hpl), changeOp_changeOp_std hmet]
   have : (revDupL c.kids) = ((revDup c).setMetas [("operation", bs Op.create.str)]).kids := by simp [kids_revDup]
@@ -150,7 +150,7 @@ theorem invol_create {S : Schema} {inh : Option Op} {e : Option DNode} {c : DNod
   rw [h2, setMetas_metas]
 
 theorem invol_delete {S : Schema} {inh : Option Op} {e : Option DNode} {c : DNode} (hinh : inh = none ∨ inh = some .none)
-    (hex : exactE S inh e c = true) (hstd : stdN c = true) (hop : effOp inh c = some .delete) :
+    (hex : exactE S inh e c = true) (hstd : stdN c = true) (hop : effOp c inh = some .delete) :
     ∃ c', revNode S inh (revDup c) = .ok c' ∧ revNode S inh (revDup c') = .ok (revDup c) := by
   obtain ⟨hd, hm, hk⟩ := exactE_base hex
   obtain ⟨_, _, _, hpl, _⟩ := exactE_delete hex hop
@@ -163,7 +163,7 @@ theorem invol_delete {S : Schema} {inh : Option Op} {e : Option DNode} {c : DNod
     rw [this, setKids_kids]
   refine ⟨_, hrev, ?_⟩
   rw [revDup_changeOp, revDup_idem]
-  have hop2 : effOp inh (changeOp (revDup c) .create) = some .create := effOp_changeOp (metaOK_revDup hm) .create
+  have hop2 : effOp (changeOp (revDup c) .create) inh = some .create := effOp_changeOp (metaOK_revDup hm) .create
   rw [revNode_create (by simpa using hk) hop2, kids_changeOp, kids_revDup,
     map_removeOp_plain _ (by rw [plainL_revDupL]; exact hpl), changeOp_changeOp_std hmet]
   have : (revDupL c.kids) = ((revDup c).setMetas [("operation", bs Op.delete.str)]).kids := by simp [kids_revDup]
@@ -294,7 +294,7 @@ theorem rev_value_default_comm {y : DNode} (ht : y.isTerm = true) {a : Bytes} {b
       simp [val_setVal_term ht, val_setVal_term h1]
 
 theorem invol_replace {S : Schema} {inh : Option Op} {e : Option DNode} {c : DNode} (hex : exactE S inh e c = true)
-    (hop : effOp inh c = some .replace) :
+    (hop : effOp c inh = some .replace) :
     ∃ c', revNode S inh (revDup c) = .ok c' ∧ revNode S inh (revDup c') = .ok (revDup c) := by
   obtain ⟨hd, hm, hk⟩ := exactE_base hex
   obtain ⟨hct, x, rfl, hleaf, hov, hod, hne⟩ := exactE_replace hex hop
@@ -322,7 +322,7 @@ theorem invol_replace {S : Schema} {inh : Option Op} {e : Option DNode} {c : DNo
   have hwhen : c'.flags.whenTrue = false := by
     rw [hc'w]; cases c <;> simp_all [t1, revDup, DNode.setVal, DNode.setMetas, DNode.flags, DNode.isTerm]
   rw [revDup_term_fix hc't hnew hwhen]
-  have hopc' : effOp inh c' = some .replace := by
+  have hopc' : effOp c' inh = some .replace := by
     rw [effOp_of_getMeta (hc'm "operation" (by decide))]
     have : getMeta t1 "operation" = getMeta c "operation" := by
       show getMeta (((revDup c).setVal x.val).setMetas _) "operation" = _
@@ -366,7 +366,7 @@ namespace LyModel.Diff
 open LyModel LyModel.Tree
 
 theorem invol_none_term {S : Schema} {inh : Option Op} {e : Option DNode} {c : DNode} (hex : exactE S inh e c = true)
-    (hop : effOp inh c = some .none) (hct : c.isTerm = true) :
+    (hop : effOp c inh = some .none) (hct : c.isTerm = true) :
     ∃ c', revNode S inh (revDup c) = .ok c' ∧ revNode S inh (revDup c') = .ok (revDup c) := by
   obtain ⟨hd, hm, hk⟩ := exactE_base hex
   obtain ⟨x, rfl, _, hod⟩ := exactE_none_term hex hop hct
@@ -382,7 +382,7 @@ theorem invol_none_term {S : Schema} {inh : Option Op} {e : Option DNode} {c : D
   have hnew : c'.flags.new = true := by rw [hc'n]; cases c <;> simp_all [revDup, DNode.flags, DNode.isTerm]
   have hwhen : c'.flags.whenTrue = false := by rw [hc'w]; cases c <;> simp_all [revDup, DNode.flags, DNode.isTerm]
   rw [revDup_term_fix hc't hnew hwhen]
-  have hopc' : effOp inh c' = some .none := by
+  have hopc' : effOp c' inh = some .none := by
     rw [effOp_of_getMeta (hc'm "operation" (by decide)), effOp_revDup]
     exact hop
   have hsid : c'.sid = c.sid := by rw [hc's]; simp
@@ -401,9 +401,9 @@ def ListInvSpec (S : Schema) (D : List DNode) : Prop :=
     ∃ R, revL S inh (revDupL D) = .ok R ∧ revL S inh (revDupL R) = .ok (revDupL D)
 
 theorem childInh_none_or {inh : Option Op} {c : DNode} (hinh : inh = none ∨ inh = some .none)
-    (hop : effOp inh c = some .none) : childInh inh c = none ∨ childInh inh c = some .none := by
+    (hop : effOp c inh = some .none) : childInhOf c inh = none ∨ childInhOf c inh = some .none := by
   unfold effOp at hop
-  unfold childInh
+  unfold childInhOf
   cases ho : ownOp c with
   | none => simpa [ho] using hinh
   | some o =>
@@ -412,7 +412,7 @@ theorem childInh_none_or {inh : Option Op} {c : DNode} (hinh : inh = none ∨ in
     exact Or.inr rfl
 
 theorem stdN_none_inner {s : Nat} {f : Flags} {m : List Meta} {ks : List DNode} {inh : Option Op}
-    (hinh : inh = none ∨ inh = some .none) (hop : effOp inh (.inner s f m ks) = some .none)
+    (hinh : inh = none ∨ inh = some .none) (hop : effOp (.inner s f m ks) inh = some .none)
     (h : stdN (.inner s f m ks) = true) : stdL ks = true := by
   unfold effOp at hop
   cases ho : ownOp (.inner s f m ks) with
@@ -425,16 +425,16 @@ theorem stdN_none_inner {s : Nat} {f : Flags} {m : List Meta} {ks : List DNode} 
 theorem invol_none_inner {S : Schema} {s : Nat} {f : Flags} {m : List Meta} {ks : List DNode} (IH : ListInvSpec S ks)
     {inh : Option Op} {e : Option DNode} (hinh : inh = none ∨ inh = some .none)
     (hex : exactE S inh e (.inner s f m ks) = true) (hstd : stdN (.inner s f m ks) = true)
-    (hop : effOp inh (.inner s f m ks) = some .none) :
+    (hop : effOp (.inner s f m ks) inh = some .none) :
     ∃ c', revNode S inh (revDup (.inner s f m ks)) = .ok c' ∧ revNode S inh (revDup c') = .ok (revDup (.inner s f m ks)) := by
   obtain ⟨hd, hm, hk⟩ := exactE_base hex
   obtain ⟨x, rfl, _, hexk⟩ := exactE_none_inner hex hop
-  obtain ⟨R, hR, hRR⟩ := IH (childInh inh (.inner s f m ks)) x.kids true (childInh_none_or hinh hop) hexk
+  obtain ⟨R, hR, hRR⟩ := IH (childInhOf (.inner s f m ks) inh) x.kids true (childInh_none_or hinh hop) hexk
     (stdN_none_inner hinh hop hstd)
   simp only [DNode.sid] at hk
-  have hci : ∀ ks', childInh inh (DNode.inner s { dflt := f.dflt, new := true } m ks') = childInh inh (.inner s f m ks) :=
+  have hci : ∀ ks', childInhOf (DNode.inner s { dflt := f.dflt, new := true } m ks') inh = childInhOf (.inner s f m ks) inh :=
     fun ks' => childInh_congr_metas (d := .inner s f m ks) (d' := .inner s { dflt := f.dflt, new := true } m ks') rfl
-  have hopt : ∀ ks', effOp inh (DNode.inner s { dflt := f.dflt, new := true } m ks') = some .none := fun ks' =>
+  have hopt : ∀ ks', effOp (DNode.inner s { dflt := f.dflt, new := true } m ks') inh = some .none := fun ks' =>
     (effOp_congr_metas (d := .inner s f m ks) (d' := .inner s { dflt := f.dflt, new := true } m ks') rfl).trans hop
   refine ⟨.inner s { dflt := f.dflt, new := true } m R, ?_, ?_⟩
   · simp only [revDup, revNode, hk, Bool.false_eq_true, ↓reduceIte, hopt, hci, hR]
@@ -469,7 +469,7 @@ mutual
 theorem nodeInv {S : Schema} : ∀ c : DNode, NodeInvSpec S c
   | .inner s f m ks => by
     intro inh e hinh hex hstd
-    cases hop : effOp inh (.inner s f m ks) with
+    cases hop : effOp (.inner s f m ks) inh with
     | none =>
       simp only [exactE, hop, Bool.and_eq_true] at hex
       cases e <;> simp at hex
@@ -483,7 +483,7 @@ theorem nodeInv {S : Schema} : ∀ c : DNode, NodeInvSpec S c
       | none => exact invol_none_inner (listInv ks) hinh hex hstd hop
   | .term s f m v => by
     intro inh e hinh hex hstd
-    cases hop : effOp inh (.term s f m v) with
+    cases hop : effOp (.term s f m v) inh with
     | none =>
       simp only [exactE, hop, Bool.and_eq_true] at hex
       cases e <;> simp at hex
